@@ -67,6 +67,8 @@ type FnCtx struct {
 	conformImpl   *Contract // conformance job: the implementation's contract (fc.con is the interface method's contract)
 	prefixOverride string
 	loopHeadPhis  map[*ssa.BasicBlock]map[*ssa.Phi]Val // the loop variables' values at the head (for prev() in step clauses)
+	ghostDefTargets []modTarget // ghost cells assigned by `defines` clauses (of callees and of the function itself)
+	ownDefTargets   []modTarget
 	lastRef       string
 	curBinds      []Val // captured values of the closure being called by contract
 	freshReach    map[string]string // reach condition under which each such object was allocated
